@@ -352,3 +352,27 @@ CONTRACTS += [
                       ('nothing-is-invented', 'len(result) <= 2')],
              note='one ambiguity filter {key: value}; finditer yields at most one match (R1 geometry); two candidate entities'),
 ]
+
+# the am/pm-ambiguous clock time: two readings, each carrying ITS OWN timex (C11: every value agrees with its TIMEX)
+_SLOT_T = Rec(DT + 'parsers.py::DateTimeParseResult',
+              dict(start=Int(0, 200), length=Int(1, 50), text=Str(), type=Const('time'), data=Const(None), meta_data=Const(None),
+                   resolution_str=Const(''), timex_str=Expr('timex'),
+                   value=Rec(DT + 'utilities.py::DateTimeResolutionResult',
+                             dict(success=Const(True), timex=Expr('timex'), is_lunar=Const(False), mod=Const(''), comment=Const('ampm'),
+                                  has_range_changing_mod=Const(False),
+                                  future_resolution=Expr('{"time": tv}'), past_resolution=Expr('{"time": tv}'),
+                                  future_value=Const(None), past_value=Const(None)))))
+CONTRACTS += [
+    Contract('dp.merged.date_time_resolution.ampm_time', BMP + '_date_time_resolution', ['C11', 'C07'], unroll=8,
+             params=dict(hh=Int(1, 12), mm=Int(0, 59), timex=Expr('"T" + fmt(hh, 2) + ":" + fmt(mm, 2)'),
+                         tv=Expr('fmt(hh, 2) + ":" + fmt(mm, 2) + ":00"'),
+                         self=MERGED_PARSER, slot=_SLOT_T, has_before=Const(False), has_after=Const(False), has_since=Const(False)),
+             ensures=[('two-readings', 'len(result["values"]) == 2'),
+                      ('first-reading-is-the-time-as-written-with-its-timex',
+                       'result["values"][0]["value"] == tv and result["values"][0]["timex"] == timex and result["values"][0]["type"] == "time"'),
+                      ('second-reading-is-twelve-hours-later-with-the-timex-of-that-reading',
+                       'result["values"][1]["value"] == fmt((hh + 12) % 24, 2) + ":" + fmt(mm, 2) + ":00" and '
+                       'result["values"][1]["timex"] == "T" + fmt((hh + 12) % 24, 2) + ":" + fmt(mm, 2) and '
+                       'result["values"][1]["type"] == "time"')],
+             note='hour 1..12 without am/pm (comment "ampm"): the value and the TIMEX of each reading agree'),
+]
